@@ -6,7 +6,7 @@ def nontrivial(tok, res):
         return res.startswith("fwd:") or res == "401"
     if tok[0] == "mreq":
         return res.startswith("acc:") or res == "407"
-    if tok[0] in ("mw", "pl"):
+    if tok[0] in ("mw", "pl", "plc"):
         return True
     return False
 
@@ -19,21 +19,40 @@ PROP = {
         "Frp.C07.serve_unauthorized", "Frp.C07.serveOld_witness", "Frp.C07.serve_witness_fixed",
         "Frp.C07.muxHandle_sound", "Frp.C07.middleware_iff", "Frp.C07.pluginAuth_iff",
         "Frp.C07.holdsOn_sound", "Frp.C07.model_holdsOn",
+        # wire-level request target (percent-decoding only) and raw-path routing
+        "Frp.C07.serveWire_sound", "Frp.C07.getVhost_prefix", "Frp.C07.serve_forward_prefix",
+        "Frp.C07.holdsOnWire_sound", "Frp.C07.model_holdsOnWire",
+        # http_proxy plugin: Handle / ServeHTTP / handleConnectReq dispatch over a whole work connection
+        "Frp.C07.pluginServeHTTP_reaches", "Frp.C07.pluginHandleConnect_reaches",
+        "Frp.C07.pluginServeConn_sound", "Frp.C07.pluginHandle_sound", "Frp.C07.pluginHandle_refuses",
+        "Frp.C07.pluginHandle_first_connect_refused", "Frp.C07.plHoldsOn_sound", "Frp.C07.model_plHoldsOn",
     ],
     "engines": [
         {"name": "httpauth", "quick_n": 4000, "thorough_n": 20000, "thorough_seeds": 5,
          "nontrivial": nontrivial,
-         "result_class": lambda r: r.split(":")[0]},
+         "result_class": lambda r: r.split(":")[0] if "," not in r else "seq"},
     ],
     "rule": "httpauth engine: generated route tables mixing protected / unprotected / user-routed proxies on the "
-            "same hosts, requests in origin-form, absolute-form and CONNECT with every combination of "
-            "Authorization / Proxy-Authorization (absent, well-formed in three scheme casings, five malformed "
-            "kinds), sent over TCP to a real http.Server{Handler: HTTPReverseProxy}, a real HTTPConnectTCPMuxer, "
-            "HTTPAuthMiddleware and the http_proxy plugin's Auth; non-trivial = a request that was forwarded / "
-            "accepted or refused for credentials; distinct = distinct (op line, result)",
+            "same hosts with default, root, nested and sibling locations; requests in origin-form, absolute-form "
+            "and CONNECT whose target path is written on the wire from ordinary paths, 1-4 segments drawn from "
+            "names / dot segments / empty segments / percent-encoded letters, dots and separators, and malformed "
+            "escapes, with every combination of Authorization / Proxy-Authorization (absent, well-formed in three "
+            "scheme casings, five malformed kinds), sent over TCP to a real http.Server{Handler: HTTPReverseProxy} "
+            "whose per-route backends report their identity (oracle: the backend of a protected route answered "
+            "=> exact credentials); a real HTTPConnectTCPMuxer; HTTPAuthMiddleware; the http_proxy plugin's Auth, "
+            "and the plugin's real Handle given one work connection carrying 1-4 requests (CONNECT in three "
+            "casings first or after GET/OPTIONS/DELETE, credentials exact / absent / malformed / other per "
+            "request) in front of a recording target (oracle: the target saw request i => request i carried the "
+            "exact credentials); non-trivial = a request that was forwarded / accepted or refused for "
+            "credentials; distinct = distinct (op line, result)",
     "trusted": COMMON_TRUST + [
         "model Frp/Model/HttpAuth.lean written by hand; header parsing (net/http BasicAuth, base64) is not "
         "modelled: requests carry parsed credential pairs, the harness encodes them with encoding/base64",
+        "request-target parsing is modelled as percent-decoding of the path only (net/url unescape, mode "
+        "encodePath); targets with '?', '#', spaces, control or non-ASCII bytes are outside the model (skipped)",
+        "http_proxy plugin: net/http request framing on the work connection (keep-alive, hijack) is modelled as "
+        "'one ServeHTTP call per request until a handler hijacks'; the first-7-bytes sniff assumes the request "
+        "line arrives in one read",
         "socks5 plugin credentials are enforced by the third-party go-socks5 library (StaticCredentials): assumed",
         "dashboard/admin API: that every /api route sits under the sub-router using the middleware is read from "
         "the code (server/dashboard_api.go:44, client/admin_api.go:46), not re-checked mechanically",
@@ -46,7 +65,7 @@ PROP = {
 META = {
     "engine": "lean+harness(httpauth)",
     "design_ref": "DESIGN.md §6 C07",
-    "technique": "Lean 4 theorem over all route tables and requests (decision logic stated outright) + differential correspondence against the real ServeHTTP / tcpmux muxer / middleware / plugin over TCP",
-    "text": "Proof: for every route table and every request (origin/absolute form, CONNECT, any Authorization / Proxy-Authorization combination) the modelled ServeHTTP forwards to route r only if r is unprotected or the request presents exactly r's user name and password, and the route checked is the route forwarded to; same for the tcpmux CONNECT muxer, the HTTP auth middleware and the http_proxy plugin. The pinned tree violated this (witness theorem serveOld_witness, replayed on the real code) and was repaired by /repo commit 015f090; the model is of the repaired code. Tie: 4000 generated ops per quick run against the real handlers over loopback TCP, with the Lean predicate evaluated on the implementation's answers.",
-    "note": "Trusted: Lean kernel; hand-written model of ServeHTTP/CheckAuth/injectRequestInfoToCtx/Muxer.handle/HTTPConnectTCPMuxer.auth/HTTPAuthMiddleware/HTTPProxy.Auth; net/http and encoding/base64 header parsing; go-socks5 credential check; harness generators.",
+    "technique": "Lean 4 theorems over all route tables, request targets and request sequences (decision logic stated outright) + differential correspondence against the real ServeHTTP / tcpmux muxer / middleware / http_proxy plugin Handle over TCP",
+    "text": "Proof: for every route table and every request (origin/absolute form, CONNECT, any Authorization / Proxy-Authorization combination) the modelled ServeHTTP forwards to route r only if r is unprotected or the request presents exactly r's user name and password, and the route checked is the route forwarded to; same for the tcpmux CONNECT muxer and the HTTP auth middleware. The statement is also proved at wire level (serveWire_sound: the target path is only percent-decoded; serve_forward_prefix: the route forwarded to is selected by that path as received, no dot-segment or empty-segment normalisation between check and forwarding). http_proxy plugin: the model is the dispatch of a whole work connection (Handle's CONNECT sniff -> handleConnectReq, otherwise the embedded server's ServeHTTP per request: Auth, then ConnectHandler / HTTPHandler); pluginHandle_sound proves for every request sequence that request i reaches a target only if request i itself carries the exact credentials, pluginHandle_refuses that every other request gets the 407 challenge or is refused and closed. The pinned tree violated this (witness theorem serveOld_witness, replayed on the real code) and was repaired by /repo commit 015f090; the model is of the repaired code. Tie: 4000 generated ops per quick run against the real handlers over loopback TCP (request paths with dot / empty / percent-encoded segments against tables with protected non-default locations; ~100 multi-request work connections through the plugin's Handle), with the Lean predicates (holdsOnWire, plHoldsOn) evaluated on the implementation's answers.",
+    "note": "Trusted: Lean kernel; hand-written model of ServeHTTP/CheckAuth/injectRequestInfoToCtx/Muxer.handle/HTTPConnectTCPMuxer.auth/HTTPAuthMiddleware/HTTPProxy.Handle+ServeHTTP+handleConnectReq+Auth; net/url path unescape; net/http and encoding/base64 header parsing; go-socks5 credential check; harness generators.",
 }
